@@ -184,6 +184,11 @@ def p9(ctx: Ctx):
                         mono = (isinstance(v, ast.Constant) and v.value is True) or (
                             isinstance(v, ast.BoolOp) and isinstance(v.op, ast.Or) and any(is_self_attr(x, fl) for x in v.values)
                         )
+                        if "data" in name:
+                            from .pyast import ast_contains as _ac
+
+                            okeq = _ac(fn, "$e.literal == ''") or _ac(fn, "'' == $e.literal") or _ac(fn, "not $e.literal")
+                            ctx.ob(f"{cls}.{fl}@{name}:test", okeq, "" if okeq else "the detector no longer looks for DATA items equal to the empty string", file=ci.module, line=s.lineno, props=["C03"])
                         ctx.ob(
                             f"{cls}.{fl}@{name}",
                             mono,
